@@ -6,6 +6,7 @@ package xf
 
 import (
 	"fmt"
+	"github.com/fatih/structtag"
 	"os"
 	"reflect"
 	"runtime/debug"
@@ -629,4 +630,25 @@ func MakeUnreversible(v reflect.Value) bool {
 		}
 	}
 	return false
+}
+
+// MalformedTag walks a (translated) type and returns the first struct field
+// whose tag is not in the conventional key:"quoted value" format ("" if none):
+// whatever a mangler writes into a tag must survive re-parsing.
+func MalformedTag(t reflect.Type) string {
+	switch t.Kind() {
+	case reflect.Ptr, reflect.Slice, reflect.Array, reflect.Map:
+		return MalformedTag(t.Elem())
+	case reflect.Struct:
+		for i := 0; i < t.NumField(); i++ {
+			f := t.Field(i)
+			if _, err := structtag.Parse(string(f.Tag)); err != nil {
+				return fmt.Sprintf("field %s has the malformed tag %q: %v", f.Name, string(f.Tag), err)
+			}
+			if m := MalformedTag(f.Type); m != "" {
+				return m
+			}
+		}
+	}
+	return ""
 }
